@@ -31,9 +31,15 @@ var deepToks = []string{">", "> ", "- ", "* ", "+ ", "1. ", "[", "![", "`", "*",
 
 func genBytes(t *rapid.T) Case {
 	c := Case{Kind: "bytes", Opts: genOpts(t), Warm: genWarm(t)}
-	c.Entry = rapid.SampledFrom([]string{"bytes", "bytes", "string", "file"}).Draw(t, "entry")
-	c.Cls = rapid.SampledFrom([]string{"random", "utf8", "soup", "soup", "soup", "deep", "table", "dollar", "latex", "splice", "splice"}).Draw(t, "cls")
+	c.Entry = rapid.SampledFrom([]string{"bytes", "bytes", "string", "file", "batch"}).Draw(t, "entry")
+	c.Cls = rapid.SampledFrom([]string{"random", "utf8", "soup", "soup", "soup", "deep", "table", "dollar", "latex", "splice", "splice", "splice", "formula", "formula", "formula"}).Draw(t, "cls")
 	switch c.Cls {
+	case "formula":
+		// formulas are converted only with math on; one case in eight keeps the drawn setting
+		if rapid.IntRange(0, 7).Draw(t, "keepmath") != 0 {
+			c.Opts.Math = true
+		}
+		c.Toks = genFormulaDoc(t)
 	case "splice":
 		// a well-formed document using every construct, cut and re-assembled: slices of it in drawn order, some
 		// repeated, with soup tokens in between (what byte-level mutation of a seed file reaches, as plain data)
@@ -515,7 +521,7 @@ func (g *g) block(depth int, top bool) Blk {
 var hardModes = []string{"escape", "autolink", "hardbreak", "nested", "inline", "cell", "blocks", "tablesoff", "headeronly"}
 
 func genAST(t *rapid.T) Case {
-	c := Case{Kind: "ast", Opts: genOpts(t), Entry: rapid.SampledFrom([]string{"bytes", "string"}).Draw(t, "entry"), Warm: genWarm(t)}
+	c := Case{Kind: "ast", Opts: genOpts(t), Entry: rapid.SampledFrom([]string{"bytes", "string", "file", "batch", "bytes", "string"}).Draw(t, "entry"), Warm: genWarm(t)}
 	gg := &g{t: t, hard: map[string]bool{}}
 	// about a quarter of the fidelity cases carry one class of input on which an open finding is known
 	if rapid.IntRange(0, 3).Draw(t, "hard") == 0 {
